@@ -47,7 +47,8 @@ def gate_story_case(draw):
     expected = [draw(st.lists(basis, min_size=1, max_size=2)) for _ in inputs]
     return {"prog": prog, "inputs": inputs, "ps": ps, "expected": expected,
             "use_expected": draw(st.booleans()), "single_expected": draw(st.booleans()),
-            "pc": draw(st.booleans())}
+            "pc": draw(st.booleans()),
+            "exp_perm": list(draw(st.permutations(range(len(inputs)))))}
 
 
 @st.composite
@@ -71,7 +72,8 @@ def story_case(draw):
     single_expected = draw(st.booleans())
     return {"prog": prog, "inputs": inputs, "ps": ps, "expected": expected,
             "use_expected": use_expected, "single_expected": single_expected,
-            "pc": draw(st.booleans())}
+            "pc": draw(st.booleans()),
+            "exp_perm": list(draw(st.permutations(range(len(inputs)))))}
 
 
 def full_state(vis, heralds, n_modes):
@@ -122,7 +124,9 @@ def run_story(case):
     expected = None
     if case["use_expected"]:
         expected = {}
-        for st_, outs in zip(states, case["expected"]):
+        order = case.get("exp_perm") or list(range(len(states)))
+        for k in order:
+            st_, outs = states[k], case["expected"][k]
             if case["single_expected"]:
                 expected[st_] = lw.State(list(outs[0]))
             else:
